@@ -99,6 +99,33 @@ def accessors_case(iface, header, value):
     return bad
 
 
+def query_case(iface, query):
+    """request accessors that read the raw query string (any bytes a client can put there, as Latin-1 text here)"""
+    import baize.wsgi as W
+    import baize.asgi as A
+    bad = []
+    if iface == "wsgi":
+        env = wsgi_environ("GET", "/p", [])
+        env["QUERY_STRING"] = query
+        req = W.Request(env)
+    else:
+        sc = asgi_scope("GET", "/p", [])
+        sc["query_string"] = query.encode("latin-1")
+        req = A.Request(sc)
+    for name in ("query_params", "url"):
+        try:
+            val = getattr(req, name)
+            if name == "query_params":
+                list(val.multi_items()), dict(val), str(val)
+            else:
+                val.query, repr(val)
+        except Exception as e:  # noqa
+            c = classify(e)
+            if c:
+                bad.append("%s -> %s" % (name, c))
+    return bad
+
+
 def body_case(iface, ctype, body):
     import baize.wsgi as W
     import baize.asgi as A
@@ -241,7 +268,9 @@ def replay(inputs):
     try:
         p = os.path.join(d, "f.txt")
         open(p, "wb").write(b"0123456789")
-        if k == "accessors":
+        if k == "query":
+            v = query_case(inputs["iface"], inputs["query"])
+        elif k == "accessors":
             v = accessors_case(inputs["iface"], inputs["header"], inputs["value"])
         elif k == "body":
             v = body_case(inputs["iface"], inputs["ctype"], inputs["body"].encode("latin-1"))
@@ -292,6 +321,12 @@ def bounded(tier, seed):
                             record({"kind": "fileresponse", "iface": iface, "header": header, "value": latin1(val)},
                                    fileresponse_case(iface, header, val, p))
                         record({"kind": "accessors", "iface": iface, "header": header, "value": latin1(val)}, accessors_case(iface, header, val))
+            # raw query strings: any bytes, not only percent-escapes
+            for query in ("", "a=1&b=2", "q=caf\xe9", "\xff=\xfe", "q=\xc3", "q=%ff%fe", "q=caf\xc3\xa9", "a=\x00", "&&==", "a" * 3000,
+                          "q=\xed\xa0\x80", "\xf8\x88\x80\x80\x80"):
+                evals += 1
+                distinct.add((iface, "query", query))
+                record({"kind": "query", "iface": iface, "query": query}, query_case(iface, query))
             bodies = [b'{"a": 1}', b'{"a": "\xff"}', b"\xff\xfe", b"a=1&b=%ff", b"\x00" * 3, b"[" * 2000, b'{"a":' + b"9" * 5000 + b"}", b"",
                       b'--b\r\nContent-Disposition: form-data; name="a"\r\n\r\nx\xff\r\n--b--\r\n']
             ctypes = ["application/json; charset=undefined", 'application/json; charset="utf8\x00"',
